@@ -604,7 +604,7 @@ pub struct Stats {
 }
 
 impl Stats {
-    fn probe(&mut self, k: &str) {
+    pub fn probe(&mut self, k: &str) {
         *self.probes.entry(k.to_string()).or_default() += 1;
     }
     pub fn merge(&mut self, o: &Stats) {
@@ -659,6 +659,12 @@ fn log_inv(st: &mut Stats, o: &InvOut, after: &Snap) {
 /// Execute a history and judge it.  Returns the first failure, if any; fills in the
 /// plans that were drawn so that the scenario becomes fully explicit.
 pub fn run_history(root: &str, scn: &mut Scn, oracle: &mut Oracle, st: &mut Stats) -> Option<Fail> {
+    let r = run_history_inner(root, scn, oracle, st);
+    cli::set_iocap(0);
+    r
+}
+
+fn run_history_inner(root: &str, scn: &mut Scn, oracle: &mut Oracle, st: &mut Stats) -> Option<Fail> {
     cli::write_tree(root, &scn.files, &scn.dirs);
     let mut meaning = scn.meaning.clone();
     for i in 0..scn.invs.len() {
@@ -705,6 +711,10 @@ pub fn run_history(root: &str, scn: &mut Scn, oracle: &mut Oracle, st: &mut Stat
             st.probe("prompt_declined_file_must_stay");
         }
         // ---- the fault-free execution (also the recording for fault placement)
+        cli::set_iocap(inv.iocap);
+        if inv.iocap > 0 {
+            st.probe("invocations_under_transfer_cap");
+        }
         let rec = cli::exec(root, &inv.cwd, &args, &stdin, inv.detrand, inv.dirseed, &vec![]);
         st.invocations += 1;
         st.ops += rec.ops.len() as u64;
